@@ -57,8 +57,11 @@ def _e3(args):
     d = os.path.join(build.CACHE, "c33")
     os.makedirs(d, exist_ok=True)
     p = os.path.join(d, name + ".xml")
-    with open(p, "w") as fh:
-        fh.write(xml)
+    if not os.path.exists(p) or open(p).read() != xml:
+        tmp = p + ".%d.tmp" % os.getpid()
+        with open(tmp, "w") as fh:
+            fh.write(xml)
+        os.replace(tmp, p)
     part = core.Part()
     r = subprocess.run([x, "explore", p, str(hw), str(bound), str(shard), str(nsh), str(cap)], capture_output=True, text=True)
     if r.returncode not in (0, 1) or not r.stdout.strip():
